@@ -177,6 +177,91 @@ static void one(const Fn *f, int M, unsigned bits, int d, int dmax, int s, int s
 }
 
 
+/* memccpy_s(dest, dmax, src, c, n): the copy ends with the first element equal to c converted to unsigned char.  Elements read: up to and
+ * including the stop character (else n); the declared source extent is n.  Judged here: overlap detection, corruption, stray writes. */
+static long g_c;
+static void one_ccpy(const Fn *f, int M, unsigned bits, int d, int dmax, int s, int n) {
+    unsigned long a[24];
+    for (int i = 0; i < M; i++) a[i] = (bits >> i) & 1 ? ('a' + i) : 0;
+    if (s + n > M || n > dmax) return;                       /* truthful sizes only; a count above dmax is rejected at entry (C05) */
+    unsigned char *arena = page + PG + 2 * PG - M;
+    unsigned char *pre = arena - 64; memset(pre, 0xEE, 64);
+    for (int i = 0; i < M; i++) arena[i] = a[i];
+    char cs[200]; snprintf(cs, sizeof cs, "%s %d %u %d %d %d %d %d %ld", f->name, M, bits, d, dmax, s, n, bosmode, g_c);
+    long rc = 0; int faulted = 0; h_n = 0;
+    long BD = bosmode ? (long)dmax : BOSU, BS = bosmode ? (long)(M - s) : BOSU;
+    n_cases++;
+    if (sigsetjmp(jb, 1) == 0) { armed = 1; rc = ((ufn)f->addr)((long)(arena + d), dmax, (long)(arena + s), g_c, n, BD, BS, 0); armed = 0; } else faulted = 1;
+    rc = (int)rc;
+    int found = -1; for (int i = 0; i < n; i++) if (a[s + i] == (unsigned long)(g_c & 0xff)) { found = i; break; }
+    int nread = found >= 0 ? found + 1 : n;
+    int declared = !(s + n <= d || s >= d + dmax);            /* dest object intersects the declared source extent */
+    int WR = !(d + nread <= s || d >= s + nread);             /* written intersects read */
+    int zone = d == s ? 2 : !declared ? 0 : WR ? 1 : 2;
+    zone_cnt[zone]++;
+    char znb[96]; snprintf(znb, sizeof znb, "%s%s%s", zone == 0 ? "disjoint" : zone == 1 ? "written-intersects-read" : d == s ? "identical-pointers" : "dest-object-touches-source",
+                           g_c < 0 || g_c > 255 ? ",c-outside-unsigned-char" : "", bosmode ? ",object-sizes-known" : ""); const char *zn = znb;
+    if (verbose) { printf("rc=%ld handler=%d(code %d) fault=%d zone=%s stop-at=%d\narena after :", rc, h_n, h_code, faulted, zn, found); for (int i = 0; i < M; i++) printf(" %02x", arena[i]); printf("\narena before:"); for (int i = 0; i < M; i++) printf(" %02lx", a[i]); printf("\n"); }
+    if (faulted) { report(f, fault_w ? "write-past-arena" : "read-past-arena", zn, cs); return; }
+    for (int i = 0; i < 64; i++) if (pre[i] != 0xEE) { report(f, "write-before-arena", zn, cs); return; }
+    for (int i = 0; i < M; i++) if ((i < d || i >= d + dmax) && arena[i] != a[i]) { report(f, "write-outside-dest", zn, cs); return; }
+    if (rc == 0) {
+        if (d != s) for (int i = 0; i < nread; i++) if (arena[d + i] != a[s + i]) { report(f, "silently-corrupted-copy", zn, cs); return; }
+        if (zone == 1) { report(f, "overlap-not-detected", zn, cs); return; }
+    } else if (rc == 404) {
+        if (zone == 0) { report(f, "disjoint-operands-rejected-as-overlapping", zn, cs); return; }
+        for (int i = d; i < d + dmax; i++) if (arena[i] != 0) { report(f, "dest-not-cleared-on-overlap", zn, cs); return; }
+    } else if (zone == 0 && found >= 0) { report(f, "disjoint-valid-call-failed", zn, cs); return; }
+}
+
+/* operands far apart: two mappings whose addresses differ by k * 4 GiB + r bytes (|r| up to a few elements): disjoint for every r, so every
+ * copy function must succeed and store what it stores for neighbouring disjoint operands (distances are kept in 64 bits) */
+static unsigned char *far_lo, *far_hi[2];
+static int far_init(void) {
+    for (unsigned long base = 0x200000000000UL; base < 0x600000000000UL; base += 0x10000000000UL) {
+        far_lo = mmap((void *)base, 2 * PG, PROT_READ | PROT_WRITE, MAP_PRIVATE | MAP_ANONYMOUS | MAP_FIXED_NOREPLACE, -1, 0);
+        if (far_lo == MAP_FAILED) continue;
+        int ok = 1;
+        for (int k = 0; k < 2; k++) { far_hi[k] = mmap((void *)(base + (k + 1) * 0x100000000UL), 2 * PG, PROT_READ | PROT_WRITE, MAP_PRIVATE | MAP_ANONYMOUS | MAP_FIXED_NOREPLACE, -1, 0); if (far_hi[k] == MAP_FAILED) ok = 0; }
+        if (ok) return 0;
+        munmap(far_lo, 2 * PG); for (int k = 0; k < 2; k++) if (far_hi[k] != MAP_FAILED) munmap(far_hi[k], 2 * PG);
+    }
+    return -1;
+}
+static long far_call(const Fn *f, unsigned char *D, long dmax_el, unsigned char *S, long len_el, int *errv) {
+    long N = dmax_el * f->w / f->dunit;
+    switch (f->fam) {
+    case F_CPY: case F_CAT: return ((ufn)f->addr)((long)D, N, (long)S, BOSU, 0, 0, 0, 0);
+    case F_NCPY: case F_NCAT: case F_MEM: case F_MOVE: return ((ufn)f->addr)((long)D, N, (long)S, len_el, BOSU, BOSU, 0, 0);
+    case F_STP: ((ufn)f->addr)((long)D, N, (long)S, (long)errv, BOSU, BOSU, 0, 0); return *errv;
+    case F_STPN: ((ufn)f->addr)((long)D, N, (long)S, len_el, (long)errv, BOSU, BOSU, 0); return *errv;
+    case F_FLD: case F_FLDIN: case F_FLDOUT: return ((ufn)f->addr)((long)D, N, (long)S, len_el, BOSU, 0, 0, 0);
+    case F_CCPY: return ((ufn)f->addr)((long)D, N, (long)S, 'e', len_el, BOSU, BOSU, 0);
+    }
+    return -1;
+}
+static void far_one(const Fn *f, int k, int dest_high, long r_el, int len_el) {
+    int w = f->w; long dmax_el = len_el + 4;
+    /* near reference: same contents, operands in one mapping, 64 elements apart */
+    unsigned char nd[512], ns[512], *Dn = nd, *Sn = ns; int e1 = 0x5a5a, e2 = 0x5a5a;
+    unsigned char *D = dest_high ? far_hi[k] + PG : far_lo + PG, *S = dest_high ? far_lo + PG : far_hi[k] + PG;
+    if (dest_high) D += r_el * w; else S += r_el * w;          /* distance: (k+1) * 4 GiB + r */
+    for (int pass = 0; pass < 2; pass++) { unsigned char *dd = pass ? D : Dn, *sp = pass ? S : Sn;
+        memset(dd, 0x55, dmax_el * w); for (long i = 0; i < dmax_el; i++) es(sp, w, i, i < len_el ? 'a' + i : 0);
+        if (f->fam == F_CAT || f->fam == F_NCAT) { es(dd, w, 0, 'X'); es(dd, w, 1, 0); } }
+    char cs[200]; snprintf(cs, sizeof cs, "%s far %d %d %ld %d", f->name, k, dest_high, r_el, len_el);
+    long rn, rf = 0; int faulted = 0; h_n = 0; n_cases++;
+    rn = (int)far_call(f, Dn, dmax_el, Sn, len_el, &e1);
+    if (sigsetjmp(jb, 1) == 0) { armed = 1; rf = (int)far_call(f, D, dmax_el, S, len_el, &e2); armed = 0; } else faulted = 1;
+    char rel[96]; snprintf(rel, sizeof rel, "far-apart,%s,distance=%dx4GiB%s", dest_high ? "dest-above-src" : "dest-below-src", k + 1, r_el == 0 ? "" : r_el > 0 ? "+r" : "-r");
+    if (verbose) printf("near: rc=%ld   far: rc=%ld handler=%d(code %d) fault=%d  dest=%p src=%p\n", rn, rf, h_n, h_code, faulted, (void *)D, (void *)S);
+    if (faulted) { report(f, "fault", rel, cs); return; }
+    if (rn != 0) return;                                        /* the layout itself is not a valid call for this function */
+    if (rf == 404) { report(f, "disjoint-operands-rejected-as-overlapping", rel, cs); return; }
+    if (rf != 0) { report(f, "disjoint-valid-call-failed", rel, cs); return; }
+    if (memcmp(D, Dn, dmax_el * w)) report(f, "result-differs-from-the-same-copy-between-neighbouring-operands", rel, cs);
+}
+
 /* long overlapping moves: every shift of src against dest in [-SH, +SH] bytes, every length up to LM bytes, every start alignment:
  * reaches the word loops, their unrolled blocks and the byte tails of the move primitives, which the small arena cannot */
 static unsigned char *mv_area;
@@ -215,11 +300,23 @@ int main(int argc, char **argv) {
         verbose = 1; const Fn *f = NULL; for (int i = 0; i < NF; i++) if (!strcmp(fns[i].name, argv[2])) f = &fns[i];
         if (!f) return 2;
         if (!strcmp(argv[3], "move")) { long_move(f, atoi(argv[4]), atoi(argv[5]), atoi(argv[6])); }
+        else if (!strcmp(argv[3], "far")) { if (far_init()) { printf("cannot place the mappings\n"); return 2; } far_one(f, atoi(argv[4]), atoi(argv[5]), atol(argv[6]), atoi(argv[7])); }
+        else if (f->fam == F_CCPY) { bosmode = atoi(argv[9]); g_c = atol(argv[10]); one_ccpy(f, atoi(argv[3]), strtoul(argv[4], 0, 10), atoi(argv[5]), atoi(argv[6]), atoi(argv[7]), atoi(argv[8])); }
         else { bosmode = argc > 9 ? atoi(argv[9]) : 0; one(f, atoi(argv[3]), strtoul(argv[4], 0, 10), atoi(argv[5]), atoi(argv[6]), atoi(argv[7]), atoi(argv[8])); }
         if (nsig) { printf("VERDICT violation %s\n", sigs[0]); return 1; }
         printf("VERDICT ok\n"); return 0;
     }
     if (argc < 5) return 2;
+    if (!strcmp(argv[1], "far")) {              /* far <maxlen_el> <shard> <n> */
+        int LM = atoi(argv[2]); long shard = atol(argv[3]), nsh = atol(argv[4]); long idx = 0;
+        if (far_init()) { fprintf(stderr, "cannot place mappings 4 GiB apart\n"); return 2; }
+        for (int fi = 0; fi < NF; fi++) { const Fn *f = &fns[fi];
+            for (int k = 0; k < 2; k++) for (int hi = 0; hi < 2; hi++) for (long r = -(LM + 6); r <= LM + 6; r++) { if ((idx++ % nsh) != shard) continue;
+                for (int len = 1; len <= LM; len++) far_one(f, k, hi, r, len); } }
+        for (int i = 0; i < nsig; i++) printf("{\"t\":\"viol\",\"sig\":\"%s\",\"n\":%ld,\"case\":\"%s\"}\n", sigs[i], sigcnt[i], sigcase[i]);
+        printf("{\"t\":\"stat\",\"layouts\":%ld,\"zone_disjoint\":%ld,\"zone_must_report\":0,\"zone_either\":0,\"dest_unterminated\":0,\"violating\":%ld}\n", n_cases, n_cases, n_viol);
+        return 0;
+    }
     if (!strcmp(argv[1], "moves")) {            /* moves <maxlen_bytes> <shard> <n> */
         int LM = atoi(argv[2]); long shard = atol(argv[3]), nsh = atol(argv[4]); long idx = 0;
         for (int fi = 0; fi < NF; fi++) { const Fn *f = &fns[fi]; if (f->fam != F_MOVE) continue; int w = f->w;
@@ -239,7 +336,12 @@ int main(int argc, char **argv) {
             if ((idx++ % nsh) != shard) continue;
             for (int d = 0; d < M; d++) for (int dmax = 1; d + dmax <= M; dmax++) for (int s = 0; s < M; s++)
                 for (int slen = uses_len ? 1 : 0; slen <= (uses_len ? M : 0); slen++)
-                    for (bosmode = 0; bosmode < 2; bosmode++) one(f, M, bits, d, dmax, s, slen);
+                    for (bosmode = 0; bosmode < 2; bosmode++) {
+                        if (f->fam != F_CCPY) { one(f, M, bits, d, dmax, s, slen); continue; }
+                        /* stop characters: every value present in the arena, one absent, the terminator, and two values outside unsigned char whose low byte is present */
+                        for (int ci = 0; ci < M + 4; ci++) { g_c = ci < M ? 'a' + ci : ci == M ? 'z' : ci == M + 1 ? 0 : ci == M + 2 ? 0x100 + 'a' + (s % M) : ('a' + ((s + 1) % M)) - 256;
+                            if (ci < M && !((bits >> ci) & 1)) continue;
+                            one_ccpy(f, M, bits, d, dmax, s, slen); } }
         }
     }
     for (int i = 0; i < nsig; i++) printf("{\"t\":\"viol\",\"sig\":\"%s\",\"n\":%ld,\"case\":\"%s\"}\n", sigs[i], sigcnt[i], sigcase[i]);
